@@ -55,9 +55,9 @@ where
             AvB_zero /= W_B_zero;
 
             // Step 2.1
-            let mut AvB_minus = *V.last().unwrap_or(&F::neg_infinity());
-            while !V.is_empty() && AvB_zero < AvB_minus {
-                AvB_minus = V.pop().unwrap();
+            // B- is the block that currently precedes B0: it has to be re-read after every pooling
+            while V.last().map_or(false, |&AvB_minus| AvB_zero < AvB_minus) {
+                let AvB_minus = V.pop().unwrap();
                 let W_B_minus = W.pop().unwrap();
                 i = J_index[J_index[l] - 1];
                 J_index[l] = i;
